@@ -16,6 +16,7 @@ pub fn run_property(id: &str, tier: Tier) -> i32 {
     run::install_panic_hook();
     match id {
         "C01" => props::c01::run(tier),
+        "C02" => props::c02::run(tier),
         "C03" => props::c03::run(tier),
         "C04" => props::c04::run(tier),
         "C05" => props::c05::run(tier),
